@@ -90,6 +90,43 @@ func VfC09_PrintParse() {
 	vfAssert("C09.print.decimal-form", ok)
 }
 
+// VfC09_PrintParseHexShaped: PrintParse restricted to the values for which
+// the real printer chooses the hexadecimal notation (few distinct hex digits):
+// all sixteen nibbles of the low word equal, the high word (for widths above
+// 64) any value.  A subset of the values PrintParse covers - but here a
+// counterexample does not depend on the executor's two-way model of the
+// notation heuristic, so it reproduces natively.
+//
+//vf:unwind 400
+//vf:shards 4
+func VfC09_PrintParseHexShaped() {
+	w := hWidth()
+	if w < 16 {
+		return
+	}
+	typ := types.NewInt(w)
+	lo := vfUint64("lo")
+	vfAssume(lo>>4 == lo&(1<<60-1)) // every nibble equals the lowest one
+	x := new(big.Int).SetUint64(lo)
+	if w > 64 {
+		h := new(big.Int).SetUint64(vfUint64("hi"))
+		h.Lsh(h, 64)
+		x.Add(x, h)
+	}
+	max := new(big.Int).Lsh(big.NewInt(1), uint(w))
+	vfAssume(x.Cmp(max) < 0)
+	c := &Int{Typ: typ, X: x}
+	vfReach("C09.print-parse.hex-shaped")
+	s := c.Ident()
+	vfObserveStr("lit", s)
+	back, err := NewIntFromString(typ, s)
+	vfAssert("C09.print-parse.hex-shaped.accepted", err == nil)
+	if err != nil {
+		return
+	}
+	vfAssert("C09.print-parse.hex-shaped.same-value", back.X.Cmp(x) == 0)
+}
+
 func hHex(b byte) (uint64, bool) {
 	d := uint64(0)
 	okd := vfAnd(b >= '0', b <= '9')
